@@ -130,11 +130,16 @@ def callers_of(fa, name, crate=None):
 
 def bracketing_functions(fa):
     out = []
+    from lib import inline
+    folded = inline.inlined_into(fa)
     for b in fa.bodies.values():
         if b.crate != "agdb" or "test_utilities" in b.path:
             continue
         if b.npath.endswith(ALIAS_FUNCS):
             continue
+        if b.path in folded:
+            continue        # an extracted helper: its bracket is judged inside the function it was extracted from
+        b = inline.inlined(fa, b)
         opens = [i for i, t in cfg.calls(b) if cfg.callee_decl(t) in OPEN_DECLS]
         if opens:
             closes = [i for i, t in cfg.calls(b) if cfg.callee_decl(t) in CLOSE_DECLS]
